@@ -146,8 +146,17 @@ func RunV2(c *Case, sig runtimev2.Signal) ImplOut {
 		return out
 	}
 	tr := &probe.Trace2{}
+	if ps, ok := sig.(*probe.Sig); ok {
+		tr.Sig = ps
+	}
 	out.Err, out.Crash = impl.RunV2(s, sig, runtimev2.WithPrivate(map[runtimev2.TaskP]any{probe.TraceKey: tr}))
+	if out.Crash != nil && strings.Contains(out.Crash.Value, "verif-probe-abort") {
+		out.Crash, out.Aborted = nil, true
+	}
 	out.Trace = tr.Trace
+	if ps, ok := sig.(*probe.Sig); ok {
+		out.Polls, out.After = ps.Polls, ps.AfterHit
+	}
 	return out
 }
 
